@@ -370,6 +370,42 @@ def zip_rule_everywhere(prog, rep, only_adt=None, rule="R03.6", floor=3):
             raw_stream = any(a == P(3, "colors") or match(a, ("call", "*::into_iter", "_", (P(3, "colors"),))) is not None for a in args)
             rep.check(good, rule, "stream-pairing:" + f.key(), status="refuted" if raw_stream else "undecided", why="the caller's colour stream is paired with the points of %s instead of the caller's `area`: colours land on wrong coordinates when the two differ (undecided = the stream is re-cut by code this rule does not model)" % rect,
                       at=t.get("sp", ""), fn=f.path)
+    # forwarding sites: a fill_contiguous that hands the caller's colour stream on to another fill_contiguous element by
+    # element (into_iter / map only: no skip, take, filter or re-cutting iterator in between) must hand on an area of
+    # the caller's size at the caller's row length — `area` itself or `area.translate(..)`.  A clipped / intersected area
+    # with the uncut stream shears the image whenever the two differ (the glyph target that "only asks the parent for
+    # visible pixels").  Re-cut streams (Clipped) have their own rules (R03.1, R03.9, streams).
+    n_fw = 0
+    for f in sorted(prog.fns.values(), key=lambda f: f.id):
+        if f.name != "fill_contiguous" or not f.body or f.kind != "assoc_fn":
+            continue
+        impl = prog.impls.get(f.impl) if f.impl else None
+        if not ((impl and impl.get("trait") == DT) or f.d.get("trait_def") == DT):
+            continue
+        if only_adt is not None and not (impl and impl["self_ty"].get("adt") == only_adt):
+            continue
+        org = Origins(f)
+        for bi in sorted(org.cfg.live_blocks()):
+            t = f.body["blocks"][bi]["t"]
+            if not t or t["k"] != "call" or t["f"].get("name") != "fill_contiguous":
+                continue
+            args = [strip_refs(a) for a in org.term_args(bi)]
+            if len(args) != 3:
+                continue
+            c = args[2]
+            while c[0] == "call" and c[1].split("::")[-1] in ("map", "into_iter", "by_ref", "copied", "cloned") and c[3]:
+                c = strip_refs(c[3][0])
+            if c != P(3, "colors"):
+                continue            # not the caller's stream, or re-cut on the way
+            n_fw += 1
+            a = args[1]
+            good = a == P(2, "area") or (a[0] == "call" and a[1].split("::")[-1] == "translate" and len(a[3]) == 2 and strip_refs(a[3][0]) == P(2, "area")) \
+                or match(a, ("call", "*Rectangle::new", "_", ("_", ("field", P(2, "area"), 1)))) is not None
+            rep.check(good, rule, "stream-forwarding:" + f.key(), "the caller's colour stream is forwarded uncut together with the area %s instead of the caller's `area` (or a translation of it): the colours are laid out in rows of the caller's width" % show(a, maxd=4),
+                      at=t.get("sp", ""), fn=f.path)
+    rep.analysed[rule + ":stream-forwarding sites"] = n_fw
+    if floor and only_adt is None:
+        rep.floor(rule, "stream-forwarding sites", n_fw, 3)
     if floor:
         rep.floor(rule, "stream-pairing sites", n, floor)
     else:
